@@ -60,6 +60,8 @@ def prove(S, name, A, B=None, timeout=30, tol=None, replay=None, signature=None,
            "nontrivial": bool(syms)}
     if detail:
         rec["detail"] = detail
+    if S.assumed:
+        rec["path_assumptions"] = list(S.assumed)
     if r.status == "unsat":
         rec["status"] = DISCHARGED
         if twin and (S.constraints or S.pathcond):
